@@ -17,13 +17,17 @@ ASSUMPTIONS = [
     "data points with distinct consecutive points (one malformed stratum: all points identical)",
 ]
 THEOREM_NOTES = "see coq/Props/C11.v: [G] general, 'given pivots' = under the hypothesis that Doolittle meets no zero pivot"
-LEVEL_TEXT = ("Coq theorems over the reals about the Gallina model coq/Model/Fit.v (uses Model/LinAlg.v, Model/Basis.v): parameters start at 0, "
-              "end at 1 and are non-decreasing [G]; averaged knot vector is a valid clamped knot vector [G]; collocation row i applied to the "
-              "control points is the evaluator's curve point at parameter i [G]; interpolate_curve / interpolate_surface satisfy the "
-              "interpolation conditions C(u_k) = Q_k given non-zero pivots [G]; approximation keeps the end data points and its interior control "
-              "points solve the normal equations given non-zero pivots [G]; solutions of the normal equations minimise the summed squared "
-              "distance [G, pure algebra]. NOT proved (tied by the correspondence and the exact oracle only): existence of the LU factorisation "
-              "(non-zero pivots) for collocation and N^T N matrices (total positivity / Schoenberg-Whitney); sqrt; floating point.")
+LEVEL_TEXT = ("Coq theorems over the reals about the Gallina model coq/Model/Fit.v (uses Model/LinAlg.v, Model/Basis.v, Model/Eval.v): parameters start "
+              "at 0, end at 1 and are non-decreasing [G]; the averaged knot vector is a valid clamped knot vector accepted by knotvector.check [G]; "
+              "collocation row i applied to the control points is the B-spline sum over the active window [G]; interpolate_curve returns a curve "
+              "whose evaluator-model point at every parameter u_k is the data point Q_k, from the chords, given non-zero Doolittle pivots [G]; "
+              "interpolate_surface: the two passes compose to S(u_k, v_l) = Q_kl for different sizes / degrees per direction, given non-zero pivots "
+              "and in-range spans [G]; least-squares: a solution of the normal equations minimises the summed squared residual [G, pure algebra]; "
+              "approximate_curve (and every row / column solve of approximate_surface) keeps the end data points as end control points and its "
+              "interior control points solve the normal equations, hence are least-squares optimal, given non-zero pivots [G]. NOT proved (tied by "
+              "the correspondence and the exact oracle only): existence of the LU factorisation (non-zero pivots) for collocation and N^T N "
+              "matrices (Schoenberg-Whitney / total positivity); the composition of the two passes of approximate_surface (corner interpolation); "
+              "in-range spans for the averaged surface parameters; sqrt (chord lengths are inputs of the model); floating point.")
 LEVEL_NOTE = ("Trusted: Coq 8.16.1 kernel incl. vm_compute; standard-library real-number axioms as printed by Print Assumptions; the hand-written "
               "model's fidelity to geomdl/fitting.py is sampled by the correspondence check (1e-8 tolerance on control points); chord lengths "
               "(sqrt) are inputs of the model")
@@ -160,7 +164,7 @@ def model_ok(case):
 class InterpCurve(Family):
     name = "interp_curve"
     imports = ("Model.Fit", "Model.LinAlg", "Run.LinAlgH")
-    count = {"quick": 90, "thorough": 700}
+    count = {"quick": 120, "thorough": 700}
     has_oracle = True
     timeout = 120
 
@@ -256,7 +260,7 @@ def approx_oracle_1d(label, p, kv, P, uk, pts):
 class ApproxCurve(Family):
     name = "approx_curve"
     imports = ("Model.Fit", "Model.LinAlg", "Run.LinAlgH")
-    count = {"quick": 90, "thorough": 700}
+    count = {"quick": 120, "thorough": 700}
     has_oracle = True
     timeout = 120
 
@@ -372,7 +376,7 @@ def surf_sizes(rng, i):
 class InterpSurface(Family):
     name = "interp_surface"
     imports = ("Model.Fit", "Model.LinAlg", "Run.LinAlgH")
-    count = {"quick": 40, "thorough": 300}
+    count = {"quick": 50, "thorough": 300}
     has_oracle = True
     timeout = 300
 
@@ -452,7 +456,7 @@ class InterpSurface(Family):
 class ApproxSurface(Family):
     name = "approx_surface"
     imports = ("Model.Fit", "Model.LinAlg", "Run.LinAlgH")
-    count = {"quick": 36, "thorough": 300}
+    count = {"quick": 44, "thorough": 300}
     has_oracle = True
     timeout = 300
 
